@@ -46,6 +46,11 @@ func vfPoolMicro(size int, fault string) func(s *vrt.Sched) (string, string, str
 // NewMuxReceiverProvider over the in-memory network; the fake listener has a scheduling point between handing
 // over a connection and Accept returning, so the fault is also taken inside receivingConnProvider.NewConnection.
 func vfPoolMicroOn(size int, fault, role string, real bool) func(s *vrt.Sched) (string, string, string) {
+	return vfPoolMicroWith(size, fault, role, real, false)
+}
+
+// vfPoolMicroWith: observe=true adds a thread that reads the manager's state (Describe) as the status logs do, concurrently with the pool mutations.
+func vfPoolMicroWith(size int, fault, role string, real, observe bool) func(s *vrt.Sched) (string, string, string) {
 	return func(s *vrt.Sched) (sig, detail, outcome string) {
 		defer vrt.SetFakeNet(nil)
 		e := &vfPoolExec{sc: vfPoolScenario{Size: size, Role: role, Real: real}}
@@ -88,6 +93,12 @@ func vfPoolMicroOn(size int, fault, role string, real bool) func(s *vrt.Sched) (
 		// the provider goroutine is spawned by the rewritten `go` statement inside Start: managed because its
 		// parent is
 		s.Spawn("starter", func() { e.mm.muxProvider.Start() })
+		if observe {
+			s.Spawn("observer", func() {
+				vrt.Point("observer", "start")
+				_ = e.mm.Describe()
+			})
+		}
 		s.Spawn("env", func() {
 			e.offer("connect")
 			vrt.Point("env", "before-fault")
@@ -314,7 +325,7 @@ func vfMicroRun(t *testing.T, property string, testName string, scenarios map[st
 }
 
 func TestVerifC10Micro(t *testing.T) {
-	vfMicroRun(t, "C10", "TestVerifC10Micro", map[string]func(s *vrt.Sched) (string, string, string){
+	scenarios := map[string]func(s *vrt.Sched) (string, string, string){
 		"pool1-peer-dies-during-connect":     vfPoolMicro(1, "killPeer"),
 		"pool2-peer-dies-during-connect":     vfPoolMicro(2, "killPeer"),
 		"pool1-lifetime-ends-during-connect": vfPoolMicro(1, "cancel"),
@@ -322,7 +333,13 @@ func TestVerifC10Micro(t *testing.T) {
 		"real-receiver-lifetime-ends-during-accept":  vfPoolMicroOn(1, "cancel", "receiver", true),
 		"real-receiver-peer-dies-during-accept":      vfPoolMicroOn(1, "killPeer", "receiver", true),
 		"real-establisher-lifetime-ends-during-dial": vfPoolMicroOn(1, "cancel", "establisher", true),
-	})
+		// a reader of the manager's state (status log, health check) runs while the session table changes
+		"pool1-peer-dies-while-state-is-read": vfPoolMicroWith(1, "killPeer", "establisher", false, true),
+	}
+	if vrt.Thorough() {
+		scenarios["pool1-lifetime-ends-while-state-is-read"] = vfPoolMicroWith(1, "cancel", "establisher", false, true)
+	}
+	vfMicroRun(t, "C10", "TestVerifC10Micro", scenarios)
 }
 
 func TestVerifC11Micro(t *testing.T) {
